@@ -582,7 +582,7 @@ func (ss *SpecSet) LoadSpecFile(path string, pkgPath string) error {
 var clauseKW = map[string]bool{"arith": true, "float": true, "requires": true, "ensures": true, "modifies": true,
 	"loop": true, "invariant": true, "decreases": true, "inline": true, "pure": true, "trusted": true, "opt": true,
 	"let": true, "assume": true, "assumes": true, "prove": true, "vars": true, "ghost": true, "calls": true, "usespec": true,
-	"guarded": true, "initonly": true, "confined": true, "channel": true, "initfuncs": true, "conffuncs": true, "entry": true, "heldfuncs": true, "balanceonly": true}
+	"guarded": true, "initonly": true, "confined": true, "channel": true, "initfuncs": true, "conffuncs": true, "entry": true, "heldfuncs": true, "balanceonly": true, "serial": true}
 var topKW = map[string]bool{"func": true, "spec": true, "pred": true, "lemma": true, "package": true, "uninterp": true, "lockclass": true}
 
 func firstWord(s string) (string, string) {
@@ -651,7 +651,7 @@ func (ss *SpecSet) parseLines(lines []string, pkgPath, file string) error {
 	for _, it := range items {
 		if it.kw != "lockclass" && curLC != "" {
 			switch it.kw {
-			case "guarded", "initonly", "confined", "channel", "initfuncs", "conffuncs", "entry", "heldfuncs", "balanceonly":
+			case "guarded", "initonly", "confined", "channel", "initfuncs", "conffuncs", "entry", "heldfuncs", "balanceonly", "serial":
 				ss.lcLines[curLC] = append(ss.lcLines[curLC], it.kw+" "+it.rest)
 				continue
 			}
